@@ -32,7 +32,7 @@ CHECKS['C02'] = dict(
          'MatId add/remove without overflow for every material configuration legal play can produce, compact serialisation format, staticInitialize table, bookHash/historyHash index in range.',
     note=TRUST + 'Zobrist key tables and piece values are uninterpreted functions (arbitrary tables; row EMPTY pinned to zero). Fold ghosts: the meta-invariant ghost == from-scratch fold rests on the single-square update lemma '
          '(commutativity/associativity of xor and modular addition) which is not machine-checked yet, and on the pinned list of functions that write squares[]. Induction over move histories is a paper argument. '
-         'quick tier: mutators, makeMove (complete 6-way case split on the moving piece kind), MatId, serialisation; thorough adds the make/unmake identity, once as a complete 6-way case split on the moving piece kind (7-8 min per case, in parallel) and once as one query (about 18 min). Not decided: FEN text round trip (std::string), deSerialize/computeZobristHash loops, Position copy/assignment.',
+         'quick tier: mutators, makeMove (complete 6-way case split on the moving piece kind), MatId, serialisation; thorough adds the make/unmake identity, once as a complete 6-way case split on the moving piece kind (7-8 min per case, in parallel) and once as one query (about 18 min). deSerialize under contract for the decoded board, flags and clocks and memory safety (256 s), and deSerialize(serialize(p)) == p on those fields as a lemma over the two contracts. Not decided: FEN text round trip (std::string), the bitboards/hash/material folds recomputed by deSerialize and computeZobristHash, Position copy/assignment.',
     technique='CBMC function contracts on extracted real code (dfcc) with ghost model fields and spliced ghost updates, SAT back end',
     design='4.2')
 CHECKS['C11'] = dict(
